@@ -6,8 +6,8 @@ from props import fam_fft as F
 from props import fam_sym
 
 MANIFEST = dict(
-    technique='Coq proof of the placement bookkeeping (slot injectivity, phase algebra) + exact differential check of placement + O(N^2) direct-sum oracles on gemmi',
-    text='Theorems: indices that fit the grid never share a slot; every coefficient written by get_f_phi_on_grid (symmetry mate, Friedel flip to l>=0, phase shift) is the true value of the index it stands for, for every group and any symmetry-consistent phase function. The placement model (has_index, index_n, half-l flip, ZYX swap, first-writer-wins, add_friedel_mates) is compared slot by slot with gemmi for every table row with integer-coded amplitudes/phases. The analytic claims are decided on the implementation by oracles: FFT map vs direct Fourier sum at every grid point, invariance under every operation, transform_map_to_f_phi vs direct sum at every held index, prepare_asu_data, inverse transform, half vs full, XYZ vs ZYX, even and odd sizes; transform_f_phi_to_map at several sampling rates and minimum sizes: the size it picks holds every index, respects the rate, suits the space group and the FFT, and its map is bit-identical to the two-step route; exact_size accepted iff compatible.',
+    technique='Coq proof of the whole placement function get_f_phi_on_grid (soundness and completeness of the grid contents, slot injectivity, phase algebra) + exact differential check of placement + O(N^2) direct-sum oracles on gemmi',
+    text='Theorems: indices that fit the grid never share a slot; every coefficient written by get_f_phi_on_grid (symmetry mate, Friedel flip to l>=0, phase shift) is the true value of the index it stands for, for every group and any symmetry-consistent phase function. WHOLE FUNCTION (loop with first-writer-wins + add_friedel_mates, both axis orders, half-l and full grids, any reflection list): sound - every entry left in the grid sits in the slot of an index k = +-(hR) of the orbit of the reflection it came from, k fits the grid, and the stored phase is the true phase of k; complete - the slot of every symmetry image that fits is filled, and every slot of the region add_friedel_mates visits whose Friedel-mate slot is filled is filled. The placement model (has_index, index_n, half-l flip, ZYX swap, first-writer-wins, add_friedel_mates) is compared slot by slot with gemmi for every table row with integer-coded amplitudes/phases. The analytic claims are decided on the implementation by oracles: FFT map vs direct Fourier sum at every grid point, invariance under every operation, transform_map_to_f_phi vs direct sum at every held index, prepare_asu_data, inverse transform, half vs full, XYZ vs ZYX, even and odd sizes; transform_f_phi_to_map at several sampling rates and minimum sizes: the size it picks holds every index, respects the rate, suits the space group and the FFT, and its map is bit-identical to the two-step route; exact_size accepted iff compatible.',
     note='Trusted: Coq kernel + vm_compute; translator; extraction; harness (double-precision direct sums, tolerance 2e-4 of max density). No axioms. pocketfft and float rounding are outside the model (oracle only).')
 
 GRIDS = {
